@@ -12,6 +12,9 @@ import (
 	"time"
 )
 
+// Gid returns the current goroutine's id.
+func Gid() int64 { return gid() }
+
 func gid() int64 {
 	var buf [64]byte
 	n := runtime.Stack(buf[:], false)
@@ -22,10 +25,20 @@ func gid() int64 {
 	return id
 }
 
+// Alive reports whether goroutine id still exists.
+func Alive(id int64) bool {
+	buf := make([]byte, 1<<20)
+	n := runtime.Stack(buf, true)
+	needle := []byte("goroutine " + strconv.FormatInt(id, 10) + " [")
+	return bytes.Contains(buf[:n], needle)
+}
+
 var ErrInjected = errors.New("verif: injected storage error")
 
 type Proc struct {
 	Name    string
+	Gid     int64
+	Bg      bool
 	Calls   []string // labels of the calls this proc has arrived at, in order
 	arrived chan string
 	grant   chan error
@@ -33,9 +46,8 @@ type Proc struct {
 	Pending string // label of the call the proc is blocked at ("" if running / done)
 	Done    bool
 	Frozen  bool
-	// crash / error injection
 	CrashAt int // freeze when arriving at call index CrashAt (0-based), -1 = never
-	ErrAt   int // inject error at call index ErrAt, -1 = never
+	ErrAt   int // inject an error at call index ErrAt, -1 = never
 	Gated   bool
 }
 
@@ -43,12 +55,12 @@ type Controller struct {
 	mu     sync.Mutex
 	byGid  map[int64]*Proc
 	Procs  map[string]*Proc
-	GateBg bool // gate storage writes made by unregistered (background) goroutines
+	GateBg bool // adopt unregistered (background) goroutines as gated procs at their storage calls
 	bgN    int
 	BgLog  []string
-	// Frozen is signalled when a proc was frozen by crash injection.
+	// FrozenCh is signalled when a proc was frozen by crash injection.
 	FrozenCh chan string
-	// bgArrived is signalled when a background goroutine arrived at a gated call
+	// BgArrived is signalled when a background goroutine is adopted (arrived at its first gated call).
 	BgArrived chan *Proc
 	Dead      bool // after a crash: every call from any goroutine freezes
 }
@@ -65,37 +77,36 @@ func (c *Controller) Kill() {
 	c.mu.Unlock()
 }
 
-var bgWrites = map[string]bool{"UpdateMintQuoteState": true}
+var bgGated = map[string]bool{"UpdateMintQuoteState": true, "GetMintQuote": true}
+
+func newProc(name string, crashAt, errAt int, gated bool) *Proc {
+	return &Proc{Name: name, CrashAt: crashAt, ErrAt: errAt, Gated: gated,
+		arrived: make(chan string, 1), grant: make(chan error, 1), done: make(chan struct{})}
+}
 
 // Point implements the hook consulted before each storage/LN call.
 func (c *Controller) Point(kind, name string) error {
+	g := gid()
 	c.mu.Lock()
 	if c.Dead {
 		c.mu.Unlock()
 		select {}
 	}
-	p := c.byGid[gid()]
+	p := c.byGid[g]
+	adopted := false
 	if p == nil {
-		if c.GateBg && bgWrites[name] {
+		if c.GateBg && kind == "db" && bgGated[name] {
 			c.bgN++
-			p = &Proc{Name: "bg" + strconv.Itoa(c.bgN), CrashAt: -1, ErrAt: -1, Gated: true,
-				arrived: make(chan string, 1), grant: make(chan error, 1), done: make(chan struct{})}
+			p = newProc("bg"+strconv.Itoa(c.bgN), -1, -1, true)
+			p.Gid, p.Bg = g, true
+			c.byGid[g] = p
 			c.Procs[p.Name] = p
-			p.Calls = append(p.Calls, kind+":"+name)
-			p.Pending = kind + ":" + name
+			adopted = true
+		} else {
+			c.BgLog = append(c.BgLog, kind+":"+name)
 			c.mu.Unlock()
-			c.BgArrived <- p
-			err := <-p.grant
-			c.mu.Lock()
-			p.Pending = ""
-			p.Done = true
-			c.mu.Unlock()
-			close(p.done)
-			return err
+			return nil
 		}
-		c.BgLog = append(c.BgLog, kind+":"+name)
-		c.mu.Unlock()
-		return nil
 	}
 	idx := len(p.Calls)
 	label := kind + ":" + name
@@ -117,6 +128,9 @@ func (c *Controller) Point(kind, name string) error {
 	}
 	p.Pending = label
 	c.mu.Unlock()
+	if adopted {
+		c.BgArrived <- p
+	}
 	p.arrived <- label
 	err := <-p.grant
 	c.mu.Lock()
@@ -127,21 +141,22 @@ func (c *Controller) Point(kind, name string) error {
 
 // Spawn runs fn in a new goroutine registered as proc name.
 func (c *Controller) Spawn(name string, gated bool, crashAt, errAt int, fn func()) *Proc {
-	p := &Proc{Name: name, CrashAt: crashAt, ErrAt: errAt, Gated: gated,
-		arrived: make(chan string, 1), grant: make(chan error, 1), done: make(chan struct{})}
+	p := newProc(name, crashAt, errAt, gated)
 	c.mu.Lock()
 	c.Procs[name] = p
 	c.mu.Unlock()
 	ready := make(chan struct{})
 	go func() {
+		g := gid()
 		c.mu.Lock()
-		c.byGid[gid()] = p
+		p.Gid = g
+		c.byGid[g] = p
 		c.mu.Unlock()
 		close(ready)
 		fn()
 		c.mu.Lock()
 		p.Done = true
-		delete(c.byGid, gid())
+		delete(c.byGid, g)
 		c.mu.Unlock()
 		close(p.done)
 	}()
@@ -149,18 +164,41 @@ func (c *Controller) Spawn(name string, gated bool, crashAt, errAt int, fn func(
 	return p
 }
 
-// Await waits until proc p is blocked at a call boundary, finished or frozen.
+// Await waits until proc p is blocked at a call boundary or finished.
 // Returns the pending label ("" when done).
 func (c *Controller) Await(p *Proc, timeout time.Duration) (label string, done bool, err error) {
-	t := time.NewTimer(timeout)
-	defer t.Stop()
-	select {
-	case l := <-p.arrived:
-		return l, false, nil
-	case <-p.done:
-		return "", true, nil
-	case <-t.C:
-		return "", false, errors.New("sched: timeout waiting for proc " + p.Name)
+	deadline := time.Now().Add(timeout)
+	for {
+		wait := 300 * time.Microsecond
+		if !p.Bg {
+			wait = timeout
+		}
+		t := time.NewTimer(wait)
+		select {
+		case l := <-p.arrived:
+			t.Stop()
+			return l, false, nil
+		case <-p.done:
+			t.Stop()
+			return "", true, nil
+		case <-t.C:
+		}
+		if p.Bg && !Alive(p.Gid) {
+			// a background goroutine that returned: check once more for a late arrival
+			select {
+			case l := <-p.arrived:
+				return l, false, nil
+			default:
+			}
+			c.mu.Lock()
+			p.Done = true
+			delete(c.byGid, p.Gid)
+			c.mu.Unlock()
+			return "", true, nil
+		}
+		if time.Now().After(deadline) {
+			return "", false, errors.New("sched: timeout waiting for proc " + p.Name)
+		}
 	}
 }
 
